@@ -451,3 +451,7 @@ PROPS['C03']['bounds'] += ' M: generate / map / zip (owned, owned x &, & x owned
 
 # C05: an element destructor that panics inside an explicit clean-up of the collectors (seventh round: builder.clear() before `return Err`)
 PROPS['C05']['mir']['quick'].append(mrun(['try_from_iter', 'try_boxed_from_iter'], nmax=3))
+
+PROPS['C04']['outside'] = ['Box receivers on the unwind path when they use the trait-default map / zip / fold bodies: these go through alloc::vec::IntoIter and Vec (std code, trusted to drop its remaining elements); an own body of the crate for the boxed receiver IS executed (scenarios box.map / box.fold)', 'N > 6 for the unrolled pipelines']
+PROPS['C04']['functions'] += ['Clone::clone_from overrides (GenericArray, GenericArrayIter) if present', 'FunctionalSequence::{map,fold} for Box<GenericArray> if the crate has own bodies', 'Drop glue of every struct defined in the crate (own Drop impl, then fields)']
+PROPS['C16']['functions'] += ['FunctionalSequence::{map,fold} for Box<GenericArray> if the crate has own bodies (M)']
